@@ -1137,6 +1137,12 @@ ares_status_t ares_dns_write_buf(const ares_dns_record_t *dnsrec,
     goto done;
   }
 
+  /* A DNS message can't be larger than 64k, even over TCP */
+  if (ares_buf_len(buf) - orig_len > 65535) {
+    status = ARES_EBADQUERY;
+    goto done;
+  }
+
 done:
   ares_llist_destroy(namelist);
   if (status != ARES_SUCCESS) {
